@@ -1571,22 +1571,27 @@ class SimulationResults(JsonSerializable):
             filename = '{0}.pickle'.format(filename)
             ext = '.pickle'
 
-        # Save the original filename before string replacements
-        self.original_filename = filename
-
-        # To get the actual filename we perform the parameter replacements
-        filename = self.get_filename_with_replaced_params(filename)
-
-        # xxxxxxxxxx Finally save to the appropriated file xxxxxxxxxxxxxxxx
         ext_to_save_func_mapping = {
             '.pickle': self._save_to_pickle,
             '.json': self._save_to_json
         }
         save_func = ext_to_save_func_mapping[ext]
 
-        # Save the SimulationResults to the file with the desired format
-        save_func(filename)
-        # xxxxxxxxxxxxxxxxxxxxxxxxxxxxxxxxxxxxxxxxxxxxxxxxxxxxxxxxxxxxxxxxx
+        # Save the original filename before string replacements (the saved
+        # object must already have it). If saving fails the object is left
+        # as it was.
+        previous_original_filename = self.original_filename
+        self.original_filename = filename
+        try:
+            # To get the actual filename we perform the parameter
+            # replacements
+            filename = self.get_filename_with_replaced_params(filename)
+
+            # Save the SimulationResults to the file with the desired format
+            save_func(filename)
+        except BaseException:
+            self.original_filename = previous_original_filename
+            raise
 
         return filename
 
